@@ -725,6 +725,7 @@ func (je *jarEngine) runHistory(c *ev.Case, reuse bool, ops []jarOp) {
 }
 
 func runJar(e *ev.Env) {
+	defer recordMaxRSS(e)
 	vt.Require()
 	vt.Start()
 	je := &jarEngine{e: e, rig: newJarRig()}
